@@ -586,7 +586,7 @@ pub fn run(ck: &mut Check) {
          Non-trivial = >= 2 stored signatures over an object with a nested container, or any tampering case; plus malformed `signatures` shapes (atomicity) and a ring-vs-ruma differential on mutated (key, signature, message) triples.",
     );
     ck.assume("Ed25519 as implemented by ring 0.17 is the RFC 8032 reference (signing is deterministic, so signatures are compared byte for byte)");
-    let n = ck.n(40_000, 600_000);
+    let n = ck.n(80_000, 600_000);
     ck.prop(
         "sign_verify_histories",
         n,
@@ -633,7 +633,7 @@ pub fn run(ck: &mut Check) {
         malformed_oracle,
     );
     ck.floor("malformed_signatures_atomicity", "sign_error", 500);
-    let n = ck.n(40_000, 600_000);
+    let n = ck.n(80_000, 600_000);
     ck.prop("ring_differential_triples", n, || (any::<[u8; 32]>(), prop::collection::vec(any::<u8>(), 0..200), 0u8..7, any::<u16>()).prop_map(|(seed, msg, mutate, bit)| TripleCase { seed, msg, mutate, bit }), triple_oracle);
     ck.floor("ring_differential_triples", "triple_valid", 500);
     ck.floor("ring_differential_triples", "triple_invalid", 2000);
